@@ -105,7 +105,12 @@ func (p *Parser) parseHeader(data []byte) (header *parser.PacketHeader, buf []by
 		}
 
 		header.Namespace = string(data[:i])
-		data = data[i+1:]
+		if i < len(data) {
+			data = data[i+1:]
+		} else {
+			// Namespace is not terminated by a comma: nothing follows it.
+			data = data[i:]
+		}
 	} else {
 		header.Namespace = "/"
 	}
